@@ -13,7 +13,7 @@ from aiomysensors.transport import StreamTransport
 from aiomysensors.transport.serial import SerialTransport
 from aiomysensors.transport.tcp import TCPTransport
 
-from vf import env
+from vf import env, gen
 from vf.runner import Outcome, fail
 
 ID = "C17"
@@ -88,6 +88,29 @@ def _write_case(draw) -> dict:
     return {"kind": "write", "writes": writes, "peer_closes_after": draw(st.one_of(st.none(), st.integers(0, 8)))}
 
 
+@st.composite
+def _duplex_case(draw) -> dict:
+    sessions = []
+    for _ in range(draw(st.integers(1, 3))):
+        sessions.append({
+            "lines": draw(st.lists(st.sampled_from(GOOD_LINES[7:12] + ("5;5;1;0;2;1", "x")), min_size=1, max_size=3)),
+            "writes": draw(st.lists(st.sampled_from(("1;1;1;0;2;1\n", "12;6;1;0;47;åäö\n", "255;255;3;0;4;7\n")), min_size=0, max_size=3)),
+            "pending": draw(st.sampled_from(("none", "empty", "partial", "partial"))),
+            "end": draw(st.sampled_from(("disconnect", "disconnect", "disconnect-twice", "eof-then-disconnect"))),
+        })
+    return {"kind": "duplex", "transport": draw(st.sampled_from(("base", "tcp", "serial"))), "sessions": sessions}
+
+
+def _duplex_enumerated():
+    for transport in ("base", "tcp", "serial"):
+        for pending in ("none", "empty", "partial"):
+            for end in ("disconnect", "disconnect-twice", "eof-then-disconnect"):
+                one = {"lines": ["1;1;1;0;0;20.5", "2;2;1;0;0;x"], "writes": ["1;1;1;0;2;1\n", "12;6;1;0;47;åäö\n"], "pending": pending, "end": end}
+                two = {"lines": ["7;255;0;0;17;2.3.2"], "writes": ["255;255;3;0;4;7\n"], "pending": pending, "end": "disconnect"}
+                yield {"kind": "duplex", "transport": transport, "sessions": [one]}
+                yield {"kind": "duplex", "transport": transport, "sessions": [one, two, one]}
+
+
 def _fault_cases():
     out = []
     for factory in ("tcp", "serial"):
@@ -101,11 +124,12 @@ def _fault_cases():
 
 
 def strategy(tier: str):
-    return st.one_of(_read_case(), _read_case(), _read_case(), _write_case(), st.sampled_from(_fault_cases()))
+    return gen.weighted((6, _read_case()), (2, _write_case()), (1, st.sampled_from(_fault_cases())), (2, _duplex_case()))
 
 
 def enumerate_cases(tier: str):
     yield from _fault_cases()
+    yield from _duplex_enumerated()
 
 
 class _Stub:
@@ -394,6 +418,121 @@ def _run_write(case: dict) -> Outcome:
     return Outcome(ok=True, nontrivial=nonascii or closes_after is not None or len(writes) > 1, classes=classes)
 
 
+def _run_duplex(case: dict) -> Outcome:
+    """One transport object over several connections; writes are issued while a read is waiting for (the rest of) a line."""
+    from vf.vloop import Deadlock, run_virtual
+
+    info = {"pending_writes": 0}
+
+    async def go() -> Outcome | None:
+        import aiomysensors.transport.serial as serial_mod
+
+        which = case.get("transport", "base")
+        real_tcp, real_serial = asyncio.open_connection, serial_mod.open_serial_connection
+        opened: list = []
+
+        async def fake_open(*args, **kwargs):
+            reader, writer, mem = env.mem_stream_pair(65536)
+            opened.append((reader, mem))
+            return reader, writer
+
+        if which == "base":
+            class Base(StreamTransport):
+                async def _open_connection(self):
+                    return await fake_open()
+
+            transport = Base()
+        else:
+            transport = TCPTransport("gateway.invalid", 5003) if which == "tcp" else SerialTransport("/dev/ttyNONE", 115200)
+        asyncio.open_connection = fake_open
+        serial_mod.open_serial_connection = fake_open
+        try:
+            for sidx, session in enumerate(case["sessions"]):
+                where = f"session {sidx + 1} ({which})"
+                before = len(opened)
+                try:
+                    await transport.connect()
+                except Exception as err:  # noqa: BLE001
+                    return fail(f"duplex:connect-raises:{type(err).__name__}", f"{where}: connect raised {err!r}")
+                if len(opened) != before + 1:
+                    return fail("duplex:connect-opened-nothing", f"{where}: connect returned but opened {len(opened) - before} connections")
+                reader, mem = opened[-1]
+                lines = [f"s{sidx};{text}" for text in session["lines"]]
+                raw = [(line + "\n").encode("utf-8") for line in lines]
+                pending = None
+                fed_first = 0
+                if session["pending"] != "none":
+                    if session["pending"] == "partial":
+                        fed_first = max(1, len(raw[0]) // 2)
+                        reader.feed_data(raw[0][:fed_first])
+                    pending = asyncio.ensure_future(transport.read())
+                    for _ in range(3):
+                        await asyncio.sleep(0)
+                want_out = b""
+                for widx, line in enumerate(session["writes"]):
+                    if pending is not None and not pending.done():
+                        info["pending_writes"] += 1
+                    try:
+                        await asyncio.wait_for(transport.write(line), 30)
+                    except asyncio.TimeoutError:
+                        return fail("duplex:write-blocked-by-pending-read", f"{where}: write {widx} {line!r} did not complete while a read was waiting for {'the rest of a line' if fed_first else 'data'}")
+                    except Exception as err:  # noqa: BLE001
+                        return fail(f"duplex:write-raises:{type(err).__name__}", f"{where}: write {widx} {line!r} raised {err!r}")
+                    want_out += line.encode("utf-8")
+                    if bytes(mem.data) != want_out:
+                        return fail("duplex:write-bytes-differ", f"{where}: after write {widx} the connection holds {bytes(mem.data)[:120]!r}, expected {want_out[:120]!r}")
+                reader.feed_data(raw[0][fed_first:] + b"".join(raw[1:]))
+                got = []
+                try:
+                    if pending is not None:
+                        got.append(await asyncio.wait_for(pending, 30))
+                    while len(got) < len(lines):
+                        got.append(await asyncio.wait_for(transport.read(), 30))
+                except asyncio.TimeoutError:
+                    return fail("duplex:read-hangs", f"{where}: lines {lines!r} arrived, reads returned {got!r} and then blocked")
+                except Exception as err:  # noqa: BLE001
+                    return fail(f"duplex:read-raises:{type(err).__name__}", f"{where}: reads returned {got!r}, then {err!r}; the stream holds {lines!r}")
+                if [g.rstrip("\n") for g in got] != lines or any(not g.endswith("\n") for g in got):
+                    return fail("duplex:read-wrong-lines", f"{where}: read {got!r}, this connection carried {lines!r}")
+                if session["end"] == "eof-then-disconnect":
+                    reader.feed_eof()
+                    await asyncio.sleep(0)
+                try:
+                    await transport.disconnect()
+                    if session["end"] == "disconnect-twice":
+                        await transport.disconnect()
+                except Exception as err:  # noqa: BLE001
+                    return fail(f"duplex:disconnect-raises:{type(err).__name__}", f"{where}: {err!r}")
+                if mem.closed_count < 1:
+                    return fail("duplex:connection-not-closed", f"{where}: disconnect returned but the connection was never closed")
+                # a disconnected transport is not connected: using it raises a transport error
+                for name, call in (("read", transport.read), ("write", lambda: transport.write("1;1;1;0;2;1\n"))):
+                    try:
+                        await asyncio.wait_for(call(), 30)
+                    except TransportError:
+                        continue
+                    except asyncio.TimeoutError:
+                        return fail(f"duplex:{name}-after-disconnect-hangs", f"{where}: {name} after disconnect blocks")
+                    except Exception as err:  # noqa: BLE001
+                        return fail(f"duplex:{name}-after-disconnect-leak:{type(err).__name__}", f"{where}: {name} after disconnect raised {err!r}")
+                    if name == "write" and bytes(mem.data) != want_out:
+                        return fail("duplex:write-after-disconnect-sent", f"{where}: a write after disconnect reached the closed connection")
+        finally:
+            asyncio.open_connection = real_tcp
+            serial_mod.open_serial_connection = real_serial
+        return None
+
+    try:
+        bad, _loop = run_virtual(go)
+    except Deadlock:
+        bad = fail("duplex:deadlock", "the event loop has nothing left to run (a read, write or disconnect blocks forever)")
+    classes = ("duplex", f"sessions={len(case['sessions'])}", f"transport={case.get('transport', 'base')}") + (("write-while-read-pending",) if info["pending_writes"] else ())
+    if bad is not None:
+        bad.classes = classes
+        return bad
+    return Outcome(ok=True, nontrivial=len(case["sessions"]) > 1 or info["pending_writes"] > 0, classes=classes)
+
+
 def _link_exc(name: str) -> BaseException | None:
     import errno
 
@@ -520,6 +659,8 @@ def _run_fault(case: dict) -> Outcome:
 
 
 def run_case(case: dict) -> Outcome:
+    if case["kind"] == "duplex":
+        return _run_duplex(case)
     if case["kind"] == "read":
         return _run_read(case)
     if case["kind"] == "write":
